@@ -442,7 +442,8 @@ pub fn gen_vop(rng: &mut Rng, len: usize, vmax: u32, oob: bool, trav: bool, maxl
         };
         return match k {
             0 if grow_ok => {
-                let n = rng.below(4);
+                // mostly short; now and then a chunk of dozens of values (longer than small limits and views)
+                let n = if rng.chance(1, 8) { rng.range(4, 40) } else { rng.below(4) };
                 VOp::Append((0..n).map(|_| v(rng)).collect())
             }
             1 if rng.chance(1, 3) => VOp::Clear,
